@@ -18,6 +18,7 @@ func init() {
 		"pkg/controllers/static/deprovisioning",
 		"pkg/controllers/disruption",
 		"pkg/utils/resources",
+		"pkg/utils/nodepool",
 	}, func(g *gen) {
 		// ---- C03 (static pools): NodePoolState ----
 		g.c03GCCondition()
@@ -32,6 +33,7 @@ func init() {
 			[]string{"HasAny", "markDisrupted", "createReplacementNodeClaims", "MarkForDeletion"})
 		g.c03StartCommandEarlyRelease()
 		g.c03StaticDriftCap()
+		g.c03IsStatic()
 		g.callSeq("C03Pool", "pkg/controllers/provisioning", "Provisioner.CreateNodeClaims", "createNodeClaimsCalls",
 			[]string{"p.Create", "ReleaseNodeCount"})
 		g.callSeq("C03Pool", "pkg/controllers/state", "Cluster.UpdateNodeClaim", "clusterUpdateNodeClaimCalls",
@@ -411,4 +413,50 @@ func (g *gen) c03StaticDriftCap() {
 		fmt.Fprintf(b, "%d", c)
 	}
 	b.WriteString("]\n\n")
+}
+
+// c03IsStatic: what makes a NodePool static (the expression nodepoolutils.IsStatic returns), and whether
+// Provisioner.NewScheduler drops the NodePools for which it holds before it builds the scheduler.
+func (g *gen) c03IsStatic() {
+	_, fd := g.findFunc("pkg/utils/nodepool", "IsStatic")
+	if fd == nil {
+		return
+	}
+	text, replicasSet := "", false
+	if len(fd.Body.List) == 1 {
+		if rs, ok := fd.Body.List[0].(*ast.ReturnStmt); ok && len(rs.Results) == 1 {
+			text = g.render(rs.Results[0])
+			if be, ok := rs.Results[0].(*ast.BinaryExpr); ok && be.Op == token.NEQ {
+				x, y := g.render(be.X), g.render(be.Y)
+				replicasSet = (strings.HasSuffix(x, ".Spec.Replicas") && y == "nil") || (strings.HasSuffix(y, ".Spec.Replicas") && x == "nil")
+			}
+		}
+	}
+	if text == "" {
+		g.errf("pkg/utils/nodepool.IsStatic: body is not a single return statement")
+		return
+	}
+	fmt.Fprintf(g.out("C03Pool"), "/-- what `nodepoolutils.IsStatic` (%s) returns -/\ndef isStaticExpr : String := %s\n\n", g.pos(fd.Pos()), leanStr(text))
+	fmt.Fprintf(g.out("C03Pool"), "/-- that expression is `<nodepool>.Spec.Replicas != nil`: a NodePool is static exactly when spec.replicas is set, whatever its value -/\ndef isStaticMeansReplicasSet : Bool := %v\n\n", replicasSet)
+
+	_, ns := g.findFunc("pkg/controllers/provisioning", "Provisioner.NewScheduler")
+	if ns == nil {
+		return
+	}
+	drops := false
+	ast.Inspect(ns.Body, func(n ast.Node) bool {
+		ifs, ok := n.(*ast.IfStmt)
+		if !ok || ifs.Init != nil {
+			return true
+		}
+		call, ok := ifs.Cond.(*ast.CallExpr)
+		if !ok || !strings.HasSuffix(exprString(call.Fun), "IsStatic") || len(ifs.Body.List) != 1 {
+			return true
+		}
+		if rs, ok := ifs.Body.List[0].(*ast.ReturnStmt); ok && len(rs.Results) == 1 && g.render(rs.Results[0]) == "false" {
+			drops = true
+		}
+		return true
+	})
+	fmt.Fprintf(g.out("C03Pool"), "/-- `Provisioner.NewScheduler` (%s) filters the NodePools with `if nodepoolutils.IsStatic(np) { return false }`: static NodePools are not offered to the pod-driven scheduler -/\ndef newSchedulerDropsStatic : Bool := %v\n\n", g.pos(ns.Pos()), drops)
 }
